@@ -360,6 +360,37 @@ def run(ctx):
         ctx.check(aa == sorted(['(usecs / %d)' % US, '(usecs %% %d)' % US]) and rb_ == ['((%d * tv.tv_sec) + tv.tv_usec)' % US] or rb_ == ['(tv.tv_usec + (%d * tv.tv_sec))' % US] and aa == sorted(['(usecs / %d)' % US, '(usecs %% %d)' % US]), R, 'timeval|inverse', a, 'sec = usecs / 10^6, usec = usecs mod 10^6; back: sec * 10^6 + usec', 'timeval conversions are %s / %s' % (aa, rb_))
 
 
+    # the timeval conversions by evaluation: usecs -> timeval -> usecs is the identity, also far beyond 2^32 seconds
+    with ctx.section('C18-R6', 'C18'):
+        from peval import PEval as _PEt, Rec as _Rect, Thrown as _Tt, Fault as _Ft, Undecided as _Ut
+        ta = u.func('phosg::usecs_to_timeval')[0]
+        tb = u.func('phosg::timeval_to_usecs')[0]
+        PEt = _PEt([u])
+        tbad, tund, tn = None, None, 0
+        for x_ in (0, 1, 999999, 1000000, 1000001, 1700000000123456, (1 << 31) * 1000000 - 1, (1 << 31) * 1000000, (1 << 32) * 1000000 - 1, (1 << 32) * 1000000 + 5, 253402300799999999, (1 << 62) + 999999):
+            if tund or tbad:
+                break
+            try:
+                tv_ = PEt.call_with(ta, [x_])
+                back_ = PEt.call_with(tb, [tv_])
+            except (_Tt, _Ft) as e_:
+                tbad = 'converting %d microseconds %s' % (x_, e_)
+                continue
+            except _Ut as e_:
+                tund = str(e_)
+                continue
+            tn += 1
+            f_ = getattr(tv_, 'f', {})
+            if not (isinstance(tv_, _Rect) and f_.get('tv_sec') == x_ // 1000000 and f_.get('tv_usec') == x_ % 1000000):
+                tbad = 'usecs_to_timeval(%d) gives sec=%s usec=%s' % (x_, f_.get('tv_sec'), f_.get('tv_usec'))
+            elif back_ != x_:
+                tbad = 'timeval_to_usecs(usecs_to_timeval(%d)) = %s: the conversions are not inverse (seconds beyond 2^32 - the year 2106 - or a truncated field)' % (x_, back_)
+        if tund:
+            ctx.undecided('C18-R6', 'timeval|round-trip', ta, 'the timeval conversions could not be folded (%s)' % tund)
+        elif tbad:
+            ctx.bad('C18-R6', 'timeval|round-trip', tb, tbad)
+        else:
+            ctx.ok('C18-R6', 'timeval|round-trip', ta, 'usecs -> timeval -> usecs is the identity on %d values up to 2^62 (second counts on both sides of 2^31 and 2^32)' % tn)
     r6['format_duration'] = und5 is None and bad5 is None
     structural(r1_structure, 'C18-R1', 'format_duration')
     structural(r2_structure, 'C18-R2', 'format_duration')
